@@ -8,7 +8,7 @@ from simkit.session import Result, jdump, signature
 PROPERTY = "C17"
 ENGINE = "fsbox"
 LEVEL = "exploration"
-BUDGET = {"quick": (1500, 60), "thorough": (60000, 540)}
+BUDGET = {"quick": (4000, 60), "thorough": (60000, 540)}
 RULE = ("seeded directory trees (1-3 levels, 1-10 files, unique base names) assembled from valid 1.0 "
         "XML/JSON/YAML, valid 1.1 XML/JSON/YAML, empty, non-XML text, malformed XML and XML of "
         "another vocabulary; the position and kind of the bad files is the fault sequence, the "
